@@ -9,3 +9,15 @@ mod rotate;
 
 pub use self::core::{EXTRA_LEN, TAG_LEN};
 pub use common::*;
+
+/// Verification hook (guarded): re-exports of items living in the private sub-modules.
+#[cfg(feature = "dswd_vpncloud_verif")]
+pub mod verif {
+    pub use super::core::{create_dummy_pair, CryptoCore};
+    pub use super::init::{
+        InitMsg, InitResult, InitState, SaltedNodeIdHash, CLOSING, STAGE_PENG, STAGE_PING, STAGE_PONG, WAITING_TO_CLOSE,
+    };
+    pub use super::rotate::{RotatedKey, RotationMessage, RotationState};
+    pub use super::core::{verif_increment, verif_seal_log_enable, verif_seal_log_take, VerifSeal};
+    pub use super::common::{verif_force_speeds, VerifSpeeds};
+}
